@@ -18,7 +18,7 @@ MANIFEST = dict(
          "timing tables. Tie: translator facts + trace validation on the FULL real stack (manager + locator + spa + facade + real simulator, virtual time) under seeded "
          "fault scripts (blackouts around each timeout, lossy and RF-error phases, selective loss, trigger phases, resets swept over the discovery / reconnect windows, "
          "a lost partial update under continuing traffic): the observed event stream is mapped to macro inputs, the model must reproduce the manager's record after "
-         "each, the recovery time must respect the bound, the facade must mirror the spa, every blackout that begins in CONNECTED must be reported in time. Session 4: the guard of the retry-exceeded branch is a generated fact (retryExceededNeedsSpa), abandoned_attempt_is_ignored is a theorem (the late failure report of a connection attempt abandoned by a reset cannot move a manager without a spa; genuine defect D8c, fix 4611c09), and the script reset-in-last-retry (resets during the last retry of a failing handshake request) is part of every run. Also: only_disconnect_closes_the_protocol over all 58 regenerated coroutine skeletons (reporting an error never silences the ping loop) and a script with an RF-error period long enough for one connection to count more than 50 reports. Also a network mode in which everything but pings gets RFERR (an error state reached without missing a ping) and every_answered_ping_is_announced over the ping loop skeleton. Resets tied to the handshake traffic (1 ms / 30 ms after each request was transmitted). Session 5: one segment of the status block answer lost (first / middle / last; once, for a while, during the periodic refresh, after a reset): the answer that arrived is not the spa's block and must not be taken for it (mirror oracle).",
+         "each, the recovery time must respect the bound, the facade must mirror the spa, every blackout that begins in CONNECTED must be reported in time. Session 4: the guard of the retry-exceeded branch is a generated fact (retryExceededNeedsSpa), abandoned_attempt_is_ignored is a theorem (the late failure report of a connection attempt abandoned by a reset cannot move a manager without a spa; genuine defect D8c, fix 4611c09), and the script reset-in-last-retry (resets during the last retry of a failing handshake request) is part of every run. Also: only_disconnect_closes_the_protocol over all 58 regenerated coroutine skeletons (reporting an error never silences the ping loop) and a script with an RF-error period long enough for one connection to count more than 50 reports. Also a network mode in which everything but pings gets RFERR (an error state reached without missing a ping) and every_answered_ping_is_announced over the ping loop skeleton. Resets tied to the handshake traffic (1 ms / 30 ms after each request was transmitted). Session 5: one segment of the status block answer lost (first / middle / last; once, for a while, during the periodic refresh, after a reset): the answer that arrived is not the spa's block and must not be taken for it (mirror oracle). pump_survives_every_exception / pump_contains_every_exception: over the regenerated skeleton of _sequence_pump with Python's handler-matching rule (Model/Cancel.lean, Thrown), whatever async_locate_spas / async_connect / async_reset raise is swallowed by a handler of the loop and the pump goes on; only a cancellation ends it.",
     note="partial: the timed model abstracts discovery / request / transfer phases to the bounds proved for them elsewhere, so a delay INSIDE a phase that those properties "
          "allow is seen only by the traces; real timer skew is outside.",
     technique="Lean 4 kernel evaluation over a finite macro-step machine built from source-extracted facts, lifted by induction; trace validation of the whole real stack",
